@@ -128,22 +128,23 @@ func (v *r2parseVal) hasSpan() bool { return v != nil && v.start != nil && v.end
 type r2parseCallRec struct{ dBefore int }
 
 type r2parseState struct {
-	D, U, seq int
-	env       map[types.Object]*r2parseVal
-	errNil    map[types.Object]int8 // 1 = nil, 2 = non-nil
-	calls     map[types.Object]*r2parseCallRec
-	last      *r2parseCallRec
-	loops     map[token.Pos]*r2parseCap // loop (by position of the `for`) -> cursor state at the entry of the current iteration
-	disp      *r2parseCap               // cursor state at the last decision on the cursor's kind (or function entry)
-	trail     []string
-	ret       []*r2parseVal
-	made      []*r2parseVal // results #0 of the parser-method calls made on this path (in order)
-	retSet    bool
-	pend      []r2parsePend                    // observations of the running rule, decided at the path end
-	bindSeq   map[types.Object]int             // local variable -> capture counter at its last assignment on this path
-	ctrl      []r2parseCtrl                    // regions whose execution was decided by a loop-carried value
-	errAlias  map[types.Object]r2parseErrAlias // boolean local -> the error test it holds
-	lastCons  int                              // capture counter after the last call that can consume a token
+	D, U, seq    int
+	env          map[types.Object]*r2parseVal
+	errNil       map[types.Object]int8 // 1 = nil, 2 = non-nil
+	calls        map[types.Object]*r2parseCallRec
+	last         *r2parseCallRec
+	loops        map[token.Pos]*r2parseCap // loop (by position of the `for`) -> cursor state at the entry of the current iteration
+	disp         *r2parseCap               // cursor state at the last decision on the cursor's kind (or function entry)
+	trail        []string
+	ret          []*r2parseVal
+	made         []*r2parseVal // results #0 of the parser-method calls made on this path (in order)
+	retSet       bool
+	pend         []r2parsePend                    // observations of the running rule, decided at the path end
+	bindSeq      map[types.Object]int             // local variable -> capture counter at its last assignment on this path
+	ctrl         []r2parseCtrl                    // regions whose execution was decided by a loop-carried value
+	errAlias     map[types.Object]r2parseErrAlias // boolean local -> the error test it holds
+	lastCons     int                              // capture counter after the last call that can consume a token
+	lastConsCall *ast.CallExpr                    // that call
 }
 
 type r2parseErrAlias struct {
@@ -171,7 +172,7 @@ type r2parsePend struct {
 }
 
 func r2parseClone(s *r2parseState) *r2parseState {
-	n := &r2parseState{D: s.D, U: s.U, seq: s.seq, last: s.last, disp: s.disp, retSet: s.retSet, lastCons: s.lastCons,
+	n := &r2parseState{D: s.D, U: s.U, seq: s.seq, last: s.last, disp: s.disp, retSet: s.retSet, lastCons: s.lastCons, lastConsCall: s.lastConsCall,
 		env: make(map[types.Object]*r2parseVal, len(s.env)), errNil: make(map[types.Object]int8, len(s.errNil)),
 		calls: make(map[types.Object]*r2parseCallRec, len(s.calls)), loops: make(map[token.Pos]*r2parseCap, len(s.loops))}
 	for k, v := range s.env {
@@ -213,19 +214,21 @@ func (s *r2parseState) path() string { return "{" + strings.Join(s.trail, "; ") 
 // ---- engine (roles shared by all runs) ----
 
 type r2parseEngine struct {
-	c       *Ctx
-	px      *pxRoles
-	sp      *spRoles
-	info    *types.Info
-	convs   map[*types.Func]*pxOpMap // token→operator conversions of parser/ast
-	convOf  map[*types.Named]*pxOpMap
-	exprFd  *ast.FuncDecl // the climbing function
-	exprFn  *types.Func
-	exprT   types.Type // its result #0: the expression interface
-	precIdx int        // index of its minimum-power parameter
-	loop    *ast.ForStmt
-	fds     []*ast.FuncDecl // methods of the parser, source order
-	fnOf    map[*ast.FuncDecl]*types.Func
+	c        *Ctx
+	px       *pxRoles
+	sp       *spRoles
+	info     *types.Info
+	convs    map[*types.Func]*pxOpMap // token→operator conversions of parser/ast
+	convOf   map[*types.Named]*pxOpMap
+	exprFd   *ast.FuncDecl // the climbing function
+	exprFn   *types.Func
+	exprT    types.Type                       // its result #0: the expression interface
+	precIdx  int                              // index of its minimum-power parameter
+	kindSets map[string]map[*types.Const]bool // memo of kindsOfVal for interface-typed method results
+	kindBusy map[string]bool
+	loop     *ast.ForStmt
+	fds      []*ast.FuncDecl // methods of the parser, source order
+	fnOf     map[*ast.FuncDecl]*types.Func
 }
 
 var r2parseEngineCache = map[*Ctx]*r2parseEngine{}
@@ -476,6 +479,17 @@ func (run *r2parseRun) walk() {
 	entryCur := &r2parseCap{off: 0}
 	entryPrev := &r2parseCap{off: -1}
 	st.disp = entryCur
+	if run.fd.Type.Results != nil {
+		for _, f := range run.fd.Type.Results.List {
+			for _, n := range f.Names {
+				if obj := info.Defs[n]; obj != nil {
+					if b, ok := obj.Type().Underlying().(*types.Basic); ok && b.Kind() == types.Bool {
+						st.env[obj] = &r2parseVal{k: r2parseConst, cst: constant.MakeBool(false), typ: obj.Type(), desc: "false (zero value of result " + n.Name + ")"}
+					}
+				}
+			}
+		}
+	}
 	for _, f := range run.fd.Type.Params.List {
 		for _, n := range f.Names {
 			obj := info.Defs[n]
@@ -511,6 +525,36 @@ func (run *r2parseRun) walk() {
 		},
 		OnCase: func(st *r2parseState, sw *ast.SwitchStmt, vals, others []ast.Expr) (*r2parseState, bool) {
 			run.touch(st, sw.Body.Lbrace)
+			if ks := run.kindOfTag(st, sw.Tag); ks != nil {
+				// switch x.Kind() where the node types x can hold on this path are known
+				listed := func(list []ast.Expr) map[*types.Const]bool {
+					out := map[*types.Const]bool{}
+					for _, v := range list {
+						if c := ConstOf(info, v); c != nil {
+							out[c] = true
+						}
+					}
+					return out
+				}
+				feasible := false
+				if vals != nil {
+					for c := range listed(vals) {
+						if ks[c] {
+							feasible = true
+						}
+					}
+				} else {
+					o := listed(others)
+					for c := range ks {
+						if !o[c] {
+							feasible = true
+						}
+					}
+				}
+				if !feasible {
+					return st, false
+				}
+			}
 			if e.px.isCurKind(info, sw.Tag) {
 				st.disp = run.capNow(st, 0)
 				var ks []string
@@ -1054,6 +1098,7 @@ func (run *r2parseRun) applyCall(st *r2parseState, call *ast.CallExpr, fn *types
 	after := run.capNow(st, -1)
 	if hi > 0 {
 		st.lastCons = after.seq
+		st.lastConsCall = call
 	}
 	st.last = rec
 	sig := fn.Type().(*types.Signature)
@@ -1407,6 +1452,101 @@ func (run *r2parseRun) cond(st *r2parseState, cond ast.Expr, taken bool) bool {
 	}
 	st.note("%s:%v", spShort(exprStr(cond)), taken)
 	return true
+}
+
+// kindOfTag: tag is x.Kind() and the node types x can hold on this path are known: the set
+// of constants their Kind() methods return (nil: unknown).
+func (run *r2parseRun) kindOfTag(st *r2parseState, tag ast.Expr) map[*types.Const]bool {
+	e := run.e
+	call, ok := ast.Unparen(tag).(*ast.CallExpr)
+	if !ok || len(call.Args) != 0 {
+		return nil
+	}
+	sel, ok := ast.Unparen(call.Fun).(*ast.SelectorExpr)
+	if !ok {
+		return nil
+	}
+	id, ok := ast.Unparen(sel.X).(*ast.Ident)
+	if !ok {
+		return nil
+	}
+	return e.kindsOfVal(st.env[e.info.Uses[id]], sel.Sel.Name, 0)
+}
+
+// kindsOfVal: the constants method(name) can return for the node value v.
+func (e *r2parseEngine) kindsOfVal(v *r2parseVal, name string, depth int) map[*types.Const]bool {
+	if v == nil || v.typ == nil || (v.k != r2parseCall && v.k != r2parseNode) || v.idx != 0 {
+		return nil
+	}
+	if n, ok := v.typ.(*types.Named); ok {
+		if _, isIface := n.Underlying().(*types.Interface); !isIface {
+			for i := 0; i < n.NumMethods(); i++ {
+				m := n.Method(i)
+				if m.Name() != name {
+					continue
+				}
+				ap := e.c.Pkg("homescript/parser/ast")
+				fd := pxFuncDeclOf(ap.TypesInfo, m)
+				if fd == nil || fd.Body == nil || len(fd.Body.List) != 1 {
+					return nil
+				}
+				ret, ok := fd.Body.List[0].(*ast.ReturnStmt)
+				if !ok || len(ret.Results) != 1 {
+					return nil
+				}
+				if k := ConstOf(ap.TypesInfo, ret.Results[0]); k != nil {
+					return map[*types.Const]bool{k: true}
+				}
+				return nil
+			}
+			return nil
+		}
+	}
+	// an interface-typed result of a parser method: the union over what the method can return
+	if v.k != r2parseCall || v.fn == nil || depth > 4 {
+		return nil
+	}
+	key := v.fn.Name() + "." + name
+	if e.kindSets == nil {
+		e.kindSets = map[string]map[*types.Const]bool{}
+		e.kindBusy = map[string]bool{}
+	}
+	if s, ok := e.kindSets[key]; ok {
+		return s
+	}
+	fd := e.sp.decls[v.fn]
+	if fd == nil || fd.Body == nil || e.kindBusy[key] || v.fn == e.exprFn {
+		return nil
+	}
+	e.kindBusy[key] = true
+	out := map[*types.Const]bool{}
+	unknown := false
+	run := e.newRun(fd, nil)
+	run.obs.exit = func(st *r2parseState, o outcome, success bool, results []*r2parseVal) {
+		if !success || unknown {
+			return
+		}
+		if len(results) == 0 {
+			unknown = true
+			return
+		}
+		s := e.kindsOfVal(results[0], name, depth+1)
+		if s == nil {
+			unknown = true
+			return
+		}
+		for k := range s {
+			out[k] = true
+		}
+	}
+	run.walk()
+	delete(e.kindBusy, key)
+	if unknown || len(out) == 0 {
+		e.kindSets[key] = nil
+		return nil
+	}
+	e.kindSets[key] = out
+	return out
 }
 
 // condErr decides `err != nil` (nonNil) / `err == nil` for the error variable obj.
